@@ -181,6 +181,7 @@ type c01Tab struct {
 func (c01) Table(rows []Ev, tier string, seed int64, rep *TableReport) {
 	var t c01Tab
 	for _, r := range rows {
+		tick([]Ev{r})
 		switch GS(r["t"]) {
 		case "b12":
 			b1 := GI(r["b1"])
